@@ -979,8 +979,14 @@ impl IPDiversityEnforcer {
 
         // Determine multipliers for subnet limits
         let limit_32 = per_ip_limit;
-        let limit_24 = std::cmp::min(self.config.max_nodes_per_ipv4_24, per_ip_limit * 3);
-        let limit_16 = std::cmp::min(self.config.max_nodes_per_ipv4_16, per_ip_limit * 10);
+        let limit_24 = std::cmp::min(
+            self.config.max_nodes_per_ipv4_24,
+            per_ip_limit.saturating_mul(3),
+        );
+        let limit_16 = std::cmp::min(
+            self.config.max_nodes_per_ipv4_16,
+            per_ip_limit.saturating_mul(10),
+        );
 
         // Apply stricter limits for hosting/VPN providers
         let (limit_32, limit_24, limit_16, limit_asn) =
